@@ -1,6 +1,7 @@
 package catalog
 
 import (
+	"fmt"
 	"strings"
 
 	"github.com/jsightapi/jsight-schema-go-library/bytes"
@@ -25,7 +26,7 @@ func (m regexMarshaller) Marshal(name string, regexStr bytes.Bytes) (schema Sche
 			if e, ok := r.(error); ok {
 				err = e
 			} else {
-				panic(r)
+				err = fmt.Errorf("%v", r)
 			}
 		}
 	}()
